@@ -23,7 +23,7 @@ def _configs():
 
 FORK_OPS = ('copy', 'copycopy', 'to_imm', 'to_mut', 'immfeed', 'immexhaust')
 OPS = [('feed', 30), ('badfeed', 4), ('step', 14), ('iter', 5), ('exhaust', 3), ('resume', 3), ('copy', 9), ('copycopy', 3),
-       ('to_imm', 4), ('to_mut', 2), ('immfeed', 5), ('immexhaust', 2), ('eofcopy', 4), ('accepts_exact', 3), ('drop', 2)]
+       ('to_imm', 4), ('to_mut', 2), ('immfeed', 5), ('immexhaust', 2), ('eofcopy', 4), ('accepts_exact', 6), ('drop', 2)]
 
 
 class Sess:
@@ -68,13 +68,17 @@ class C13(Check):
     def lark_for(self, cfg):
         p = self.inst.get(cfg)
         if p is None:
+            if len(self.inst) > 300:
+                for k in [k for k in self.inst if k.startswith('gen:')]:
+                    del self.inst[k]
+                    del self.termnames[k]
             p = self.inst[cfg] = W.build(cfg)
             self.termnames[cfg] = sorted(t.name for t in p.terminals if t.name not in p.ignore_tokens)
         return p
 
     # ------------------------------------------------------------------ plan
     def gen_plan(self, rng, tier):
-        cfg = rng.choice(self.cfgs)
+        cfg = rng.choice(self.cfgs) if rng.random() < 0.8 else W.gen_config(rng)
         p = self.lark_for(cfg)
         start = rng.choice(sorted(p.options.start))
         mode = rng.random()
@@ -108,6 +112,8 @@ class C13(Check):
                 ip = getattr(ex, 'interactive_parser', None)
                 if ip is not None:
                     return ip
+            except (ValueError, TypeError, KeyError):
+                pass                     # a user callback failed: no error session to start from
             return p.parse_interactive(inp, start=plan['start'])
         return p.parse_interactive(inp, start=plan['start'])
 
@@ -307,7 +313,7 @@ class C13(Check):
                     if plan['root'] == 'interactive' and all(o[0] in ('step', 'exhaust', 'resume') for o, _ in s.events) \
                             and not any(r[0] in ('err', 'pyerr') for _, r in s.events[:-1]):
                         want = outcome_of(lambda: p.parse(W.as_input(e, plan['text']), start=plan['start']))
-                        got = {'ok': res[1]} if res[0] == 'result' else (dict(res[1]) if res[0] == 'err' else {'error': res[1]})
+                        got = {'ok': res[1]} if res[0] == 'result' else (dict(res[1]) if res[0] == 'err' else {'error': 'PY:' + res[1]})
                         want.pop('accepts', None)
                         if _strip(got) != _strip(want):
                             fail('resume-differs-from-parse', step=stepno, got=got, want=want, events=[o[0] for o, _ in s.events])
